@@ -344,7 +344,7 @@ def run(ctx):
     # the oracle's folding table against CPython's str.lower() on every string of the vocabularies: a difference is a fault of
     # this harness or of the interpreter, not of the library under test
     for d in core + spell + ext:
-        for s in strings_of(d) + [d[1].upper()]:
+        for s in strings_of(d):
             if fold(s) != s.lower():
                 raise RuntimeError("C20 harness: folding table and str.lower() differ on %r" % s)
     qs = qs + spell_qs
